@@ -9,6 +9,7 @@ package main
 import (
 	"fmt"
 	"os"
+	"os/exec"
 	"regexp"
 	"sort"
 	"strconv"
@@ -17,7 +18,54 @@ import (
 	"github.com/hedzr/logg/slog"
 )
 
-func init() { props["C10"] = runC10 }
+func init() {
+	props["C10"] = runC10
+	childModes["c10env"] = func(a []string) {
+		// a fresh production process: the package level and the level a detached logger starts at
+		fmt.Printf("LEVELS %d %d %d\n", int(slog.GetLevel()), int(slog.New("c10env").Level()), int(slog.Default().Level()))
+	}
+}
+
+// c10Env: the package default level of a production process is Warn unless the environment asks for debugging in so many
+// words (DEBUG=1 / true / yes / on); every spelling of "no" - and an empty value - leaves it at Warn.
+func c10Env(r *run) {
+	exe := os.Getenv("VERIF_HARNESS")
+	if exe == "" {
+		return
+	}
+	for _, c := range []struct {
+		set  bool
+		val  string
+		want int
+	}{{false, "", 3}, {true, "", 3}, {true, "0", 3}, {true, "false", 3}, {true, "off", 3}, {true, "no", 3}, {true, "n", 3}, {true, "disabled", 3},
+		{true, "1", 5}, {true, "true", 5}, {true, "yes", 5}, {true, "on", 5}} {
+		cmd := exec.Command(exe, "c10env")
+		var env []string
+		for _, kv := range os.Environ() {
+			if !strings.HasPrefix(kv, "DEBUG=") {
+				env = append(env, kv)
+			}
+		}
+		if c.set {
+			env = append(env, "DEBUG="+c.val)
+		}
+		cmd.Env = env
+		out, _ := cmd.CombinedOutput()
+		var pkg, det, def int
+		ok := false
+		for _, line := range strings.Split(string(out), "\n") {
+			if n, _ := fmt.Sscanf(line, "LEVELS %d %d %d", &pkg, &det, &def); n == 3 {
+				ok = true
+			}
+		}
+		r.seen(fmt.Sprintf("env|%v|%s", c.set, c.val))
+		if !ok || pkg != c.want || det != c.want || def != c.want {
+			r.violate(violation{What: "a detached logger of a fresh production process does not start at the package default level the environment implies",
+				Input:    map[string]any{"DEBUG_set": c.set, "DEBUG": c.val, "process": "production binary (not go test)"},
+				Expected: fmt.Sprintf("package level, New(...).Level() and Default().Level() all %d", c.want), Actual: strings.TrimSpace(string(out))})
+		}
+	}
+}
 
 type c10Logger struct {
 	l      slog.Logger
@@ -698,6 +746,7 @@ func runC10(r *run) {
 		}
 	}
 	c10WriterIsolation(r, g)
+	c10Env(r)
 	slog.VerifResetGlobals()
 }
 
